@@ -1504,3 +1504,20 @@ MUTANTS += [
  dict(name='benign-r4-C20-exp-by-x-top-bit-dropped', prop='C01', expect='R-POLY/exp', patch='selftest/fixes/benign-r4-C20.patch',
       edits=[('src/bls12_381/pairing.cpp', 'unsigned int i = bls_x_highest_set_bit + 1;', 'unsigned int i = bls_x_highest_set_bit;')]),
 ]
+
+# ---- round 13 seeds
+MUTANTS += [
+ dict(name='seed-C02-fq-sqrt-restrict-in-place', prop='C02', patch='seeded/C02-fq-sqrt-calls-restrict-exponentiation-in-place/patch.diff', expect='R-ALIAS'),
+ dict(name='seed-C03-bmi2-redc-stale-flag', prop='C03', patch='seeded/C03-bmi2-redc-first-iteration-drops-flag-reset/patch.diff', expect='stale flag'),
+ dict(name='seed-C06-wnaf-add-carry-for-wrap', prop='C06', patch='seeded/C06-wnaf-recoding-uses-add-carry-for-wrap/patch.diff', expect='VIOLATION property=C06'),
+ dict(name='seed-C09-canonical-helper-stride', prop='C09', patch='seeded/C09-decode-canonical-helper-strides-by-field-size/patch.diff', expect='never compared with q'),
+ dict(name='seed-C11-keygen-product-from-precompute', prop='C11', patch='seeded/C11-keygen-product-from-precompute-binds-hidden-id/patch.diff', expect='VIOLATION property=C11'),
+ dict(name='seed-C13-message-exponent-top-bit', prop='C13', patch='seeded/C13-message-exponent-top-bit-dropped/patch.diff', expect='VIOLATION property=C13'),
+ dict(name='seed-C14-adjust-sticky-negative-flag', prop='C14', patch='seeded/C14-adjust-precomputed-sticky-negative-flag/patch.diff', expect='VIOLATION property=C14'),
+ dict(name='seed-C15-lqibe-params-shared-inversion', prop='C15', patch='seeded/C15-lqibe-params-marshal-shared-inversion/patch.diff', expect='VIOLATION property=C15'),
+ dict(name='seed-C17-unmarshalled-length-wraparound', prop='C17', patch='seeded/C17-unmarshalled-length-size_t-wraparound/patch.diff', expect='VIOLATION property=C17'),
+ dict(name='seed-C18-projective-add-early-z-write', prop='C18', patch='seeded/C18-projective-add-early-z-write/patch.diff', expect='VIOLATION property=C18'),
+ # a canonicality helper with the right stride is accepted
+ dict(name='c09-benign-canonical-helper-stride-48', prop='C09', benign=True, expect='', patch='seeded/C09-decode-canonical-helper-strides-by-field-size/patch.diff',
+      edits=[('src/bls12_381/curve.cpp', 'for (size_t i = 0; i != size; i += sizeof(BaseField)) {', 'for (size_t i = 0; i != size; i += sizeof(Fq)) {')]),
+]
